@@ -136,6 +136,18 @@ Theorem C10_client_reads_variants_except_foreign_namesake : forall cd fl c reqpa
 Proof. exact client_reads_variants_kf. Qed.
 Print Assumptions C10_client_reads_variants_except_foreign_namesake.
 
+(** ** SyncCollection (the servers of this repository do not implement the report; the
+    client is specified against the independent writer): for a sync-collection answer in
+    canonical layout naming changed members (getlastmodified, getetag) and removed
+    members (status 404), the client returns the token, the changed members with entity
+    tag and instant, and the removed paths, in document order.  With the theorem above
+    the same holds for every other layout of the same content. *)
+Theorem C10_sync_collection : forall cd reqpath members token,
+  (forall m, In m members -> member_ok cd reqpath m) ->
+  sync_collection cd reqpath (rfc_write (sync_doc cd members token)) = COk (token, map sync_item_of members).
+Proof. exact sync_reads_canonical. Qed.
+Print Assumptions C10_sync_collection.
+
 (** ** Known finding C10-foreign-namesake (known_findings.json) is real: two conformant
     layouts of one content (the second holds an extension element {urn:x}href, which RFC
     4918 section 17 tells a reader to ignore) are read differently by SyncCollection. *)
